@@ -7,6 +7,7 @@ import OpusProofs.ProjectionImport
 import OpusProofs.ProjectionCreate
 import OpusProofs.MsEncodeSkel
 import OpusProofs.LayoutIdentity
+import OpusProofs.ProjectionInt24
 import OpusProofs.LayoutIsqrt
 /-
   Property C10 — "Multistream and projection equal per-stream coding plus the channel mapping".
@@ -457,10 +458,26 @@ theorem ms_encode_packet_structure_skel (n : Nat) (hn : 1 ≤ n) (fs : Nat) (hfs
   ms_encode_packet_structure n hn fs fsz.toNat hfs vbr bitrate maxData _
     (MsEncode.skelEnc_contract sts fuzz fsz ors frs fs hfsAll hok) (MsEncode.skelEnc_total sts fuzz fsz ors frs)
 
-/-- the skeleton really returns multi-frame padded packets inside these hypotheses (C02's example: 64 kb/s
-    CBR, 60 ms, 48 kHz stereo → three CELT frames of 158 bytes, header `FF 43 03`) -/
-example : (EncSkel.encodeNative OpusProps.C02.exSt false 2880 4000 (OpusProps.C02.exOr 158)).ok = true ∧
-    (EncSkel.encodeNative OpusProps.C02.exSt false 2880 4000 (OpusProps.C02.exOr 158)).pkt.hdr = [255, 67, 3] := by
+/-- the skeleton really returns multi-frame padded packets inside these hypotheses (the state and oracle of
+    C02's example: 64 kb/s CBR, 60 ms, 48 kHz stereo → three CELT frames of 158 bytes, header `FF 43 03`) -/
+def exSkelSt : EncSkel.St :=
+  { fs := 48000, channels := 2, application := 2049, useVbr := 0, userBitrate := 64000, forceChannels := -1000,
+    signalType := -1000, userBandwidth := -1000, maxBandwidth := 1105, userForcedMode := -1000, lfe := 0, useDtx := 0,
+    fecConfig := 0, variableDuration := 5000, complexity := 9, lossPerc := 0, useInBandFEC := 0, energyMasking := 0,
+    streamChannels := 2, mode := 1002, prevMode := 1002, prevChannels := 2, prevFramesize := 960, bandwidth := 1105,
+    autoBandwidth := 1105, silkBwSwitch := 0, first := 0, voiceRatio := -1, detectedBandwidth := 0, nbNoActivity := 0,
+    nonfinalFrame := 0, bitrateBps := 64000, toMono := 0, lbrrCoded := 0, allowBwSwitch := 0, inWBmode := 0,
+    opusCanSwitch := 0, silkUseDtx := 0 }
+def exSkelFr : EncSkel.FrameOr :=
+  { aValid := 1, activity := 1, silkBitRateIn := 0, silkRet := 0, nBytes := 0, isr := 0, switchReady := 0, allowBw := 0,
+    inWB := 0, tellA := 0, tellB := 0, tellC := 0, tellD := 1, tellE := 1000, stripTo := 0, celtRed1 := 0,
+    celtMain := 158, celtRed2 := 0, used1 := 0, used2 := 0 }
+def exSkelOr : EncSkel.NatOr :=
+  { isSilence := 0, aValid := 1, aBandwidth := 20, vr0 := 10, vr1 := 10, vr2 := 10, modeVoice := 64000, modeMusic := 10000,
+    rands := [], frames := [exSkelFr, exSkelFr, exSkelFr] }
+example : (EncSkel.encodeNative exSkelSt false 2880 4000 exSkelOr).ok = true ∧
+    (EncSkel.encodeNative exSkelSt false 2880 4000 exSkelOr).pkt.hdr = [255, 67, 3] ∧
+    (EncSkel.encodeNative exSkelSt false 2880 4000 exSkelOr).pkt.lens = [158, 158, 158] := by
   decide +kernel
 
 /-- the contract is satisfiable: a per-stream encoder that always emits the 20 ms CELT packet `F8 07 07`
@@ -497,5 +514,32 @@ theorem matrix_short_saturates (mx : MappingMatrix) (input : List (Int × Int)) 
   split at h
   · cases h
   · exact outShortLoop_range mx input inputRow inputRows outputRows frameSize 0 output out' hin h
+
+/-- **What the 24-bit output path computes** (`mapping_matrix_multiply_channel_out_int24`; the model
+    `Projection.outInt24Rows` applies `step24` per cell, and the `mixout24` correspondence suite ties it to
+    the code incl. at the int32 limits).  One accumulation `output += (cell·sample + 16384) >> 15` converts
+    a 64-bit sum back to `opus_int32` *without* saturation; it is nevertheless the exact integer whenever the
+    accumulator has headroom (`|o| ≤ B`, `|sample| ≤ S`, `B + S + 1 ≤ 2³¹−1`); in particular accumulating, from
+    a cleared buffer, the contributions of up to 255 input rows of 24-bit samples (`|sample| ≤ 2²³`, i.e.
+    decoded floats within ±1.0) through any Q15 cells never wraps and gives exactly `Σ ⌊(c·s + 2¹⁴)/2¹⁵⌋`,
+    of magnitude at most `255·(2²³+1)`. -/
+theorem matrix_int24_exact :
+    (∀ o c s S B : Int, InInt16 c → (-S ≤ s ∧ s ≤ S) → (-B ≤ o ∧ o ≤ B) → B + S + 1 ≤ 2147483647 →
+      Projection.step24 o c s = o + (c * s + 16384) / 32768 ∧
+      -(B + S + 1) ≤ Projection.step24 o c s ∧ Projection.step24 o c s ≤ B + S + 1) ∧
+    (∀ l : List (Int × Int), l.length ≤ 255 → (∀ cs ∈ l, InInt16 cs.1 ∧ -8388608 ≤ cs.2 ∧ cs.2 ≤ 8388608) →
+      Projection.acc24 0 l = Projection.sum24 l ∧
+      -(255 * 8388609) ≤ Projection.acc24 0 l ∧ Projection.acc24 0 l ≤ 255 * 8388609) := by
+  refine ⟨fun o c s S B hc hs ho hr => Projection.step24_exact o c s S B hc hs ho hr, fun l hlen hl => ?_⟩
+  have hL : (l.length : Int) * (8388608 + 1) ≤ 255 * 8388609 := by
+    have : (l.length : Int) ≤ 255 := by omega
+    omega
+  have hnn : 0 ≤ (l.length : Int) * (8388608 + 1) := Int.mul_nonneg (by omega) (by omega)
+  obtain ⟨h1, h2, h3⟩ := Projection.acc24_exact 8388608 (by omega) l 0 0 hl ⟨by omega, by omega⟩ (by omega)
+  exact ⟨by omega, by omega, by omega⟩
+
+/-- without headroom the step wraps (no saturation), and in range it is the Q15 product -/
+example : Projection.step24 2147483647 32767 8388608 = -2139095297 ∧ Projection.step24 100 16384 8388608 = 4194404 ∧
+    Projection.res2int24 (3, -1) = 12582912 ∧ Projection.res2int24 (1, 9) = -2147483648 := by decide
 
 end OpusProps.C10
